@@ -477,9 +477,11 @@ def compile_table(ctx, rule_key, rule_pass):
             break
     if rule_pass is None:
         return
-    compiled = Obj(_name='ALREADY_COMPILED')
+    compiled = Obj(_cls='css_match.SoupSieve', _name='ALREADY_COMPILED', pattern='p', selectors=Obj(_name='SELECTORS'), namespaces=None, custom=None,
+                   flags=0)
     for ns, cs, flags in itertools.product((None, {}, {'p': 'u'}), (None, {}, {':--x': 'y'}), (0, 1)):
         stubs = {'isinstance': lambda v, c, _c=compiled: v is _c, 'cp._cached_css_compile': lambda *a, **k: Obj(_name='RECOMPILED'),
+                 'css_parser._cached_css_compile': lambda *a, **k: Obj(_name='RECOMPILED'),
                  'ct.Namespaces': lambda a: Obj(_name='NS'), 'ct.CustomSelectors': lambda a: Obj(_name='CS')}
         try:
             r = Interp(ctx, '__init__', None, {}, stubs).run_function(imod, cfn, None, [compiled, ns, flags], {'custom': cs}, None)
